@@ -149,6 +149,8 @@ where
         for filter in filters {
             data = t!(decode(&data, filter), filter);
         }
+        #[cfg(feature = "verif_hooks")]
+        crate::verif::note_decoded(data.len());
         Ok(data.into())
     }
 
@@ -318,12 +320,20 @@ where
             }
             chain.push(key);
         }
+        #[cfg(feature = "verif_hooks")]
+        crate::verif::yield_point(crate::verif::SITE_GET_AFTER_PUSH, key.id);
         let _defer = Defer(|| {
+            #[cfg(feature = "verif_hooks")]
+            crate::verif::yield_point(crate::verif::SITE_GET_BEFORE_POP, key.id);
             let mut chain = self.chain.lock().unwrap();
             assert_eq!(chain.pop(), Some(key));
         });
         
+        #[cfg(feature = "verif_hooks")]
+        crate::verif::yield_point(crate::verif::SITE_GET_BEFORE_CACHE, key.id);
         let res = self.storage.cache.get_or_compute(key, || {
+            #[cfg(feature = "verif_hooks")]
+            crate::verif::yield_point(crate::verif::SITE_GET_IN_COMPUTE, key.id);
             match self.resolve(key).and_then(|p| T::from_primitive(p, self)) {
                 Ok(obj) => Ok(AnySync::new(Shared::new(obj))),
                 Err(e) => {
@@ -333,6 +343,8 @@ where
                 }
             }
         });
+        #[cfg(feature = "verif_hooks")]
+        crate::verif::yield_point(crate::verif::SITE_GET_AFTER_CACHE, key.id);
         match res {
             Ok(any) => {
                 match any.downcast() {
